@@ -55,7 +55,7 @@ def correspondence(tier, seed, corpus=()):
     n = 300 if tier == "quick" else 4000
     base = seed * 1000003 + 130000
     seeds = [int(c["case_seed"]) for c in corpus if c.get("generator") == "c13"] + [base + i for i in range(n)]
-    return [S.run_stream("c13-injected", "c13", seeds, OWN), stream_real(tier, seed)]
+    return [S.run_stream("c13-injected", "c13", seeds, OWN), stream_real(tier, seed), S.stream_cvxpy_heuristic(tier)]
 
 
 def search(tier, seed):
@@ -63,6 +63,12 @@ def search(tier, seed):
     found = S.direct_search("c13", [seed * 1000003 + 913000 + i for i in range(n)])
     if found:
         return found
+    try:
+        _, hp, _ = S.run_heuristic_histories(len(S.HEUR_HISTORIES))
+    except Exception as e:
+        hp = [dict(generator="cvxpy-heuristic", kind="real-model-raised", error="%s: %s" % (type(e).__name__, str(e)[:200]))]
+    if hp:
+        return hp[0]
     problems, stats = [], {}
     for idx in ["linop"] + list(range(6)):
         try:
@@ -126,6 +132,11 @@ def is_known(payload, known):
 
 
 def replay(payload):
+    if payload.get("generator") == "cvxpy-heuristic":
+        try:
+            return bool(S.run_heuristic_histories(len(S.HEUR_HISTORIES))[1])
+        except Exception:
+            return True
     if payload.get("generator") == "real":
         problems, stats = [], {}
         try:
